@@ -51,7 +51,10 @@ def build(work):
          'entries': [{'id': 'u-w1', 'meta': None, 'lemma': {'writtenForm': 'uword', 'partOfSpeech': 'n'},
                       'senses': [{'id': 'u-s1', 'synset': 'u-1', 'meta': None}]}],
          'synsets': [{'id': 'u-1', 'ili': 'i1', 'partOfSpeech': 'n', 'meta': None},
-                     {'id': 'u-2', 'ili': 'i3', 'partOfSpeech': 'n', 'meta': None}]}
+                     {'id': 'u-2', 'ili': 'i3', 'partOfSpeech': 'n', 'meta': None},
+                     {'id': 'u-3', 'ili': 'i0', 'partOfSpeech': 'n', 'meta': None},
+                     {'id': 'u-4', 'ili': 'i5', 'partOfSpeech': 'n', 'meta': None},
+                     {'id': 'u-5', 'ili': 'i6', 'partOfSpeech': 'n', 'meta': None}]}
     lmf.dump({'lmf_version': '1.0', 'lexicons': [taxonomy_lexicon(), lmfgen.full_lexicon('1.0', meta=lmfgen.META_FULL),
                                                  u]}, src)
     wn.add(src, progress_handler=None)
@@ -111,6 +114,23 @@ def battery(work, src):
                 except wn.Error:
                     row.append('error')
                 rec('pair', row)
+    # through an expand lexicon: hypernyms that exist only as inferred placeholders (told apart by their ILI)
+    wx = wn.Wordnet('u:1', expand='t:1')
+
+    def tag(s):
+        return f'{s.id}@{s._ili}'
+    for a in wx.synsets():
+        rec('x-paths', [a.id, [[tag(p) for p in path] for path in a.hypernym_paths()]])
+        for b in wx.synsets():
+            row = [a.id, b.id]
+            try:
+                row.append([tag(s) for s in a.lowest_common_hypernyms(b)])
+                row.append([tag(s) for s in a.common_hypernyms(b)])
+                row.append([tag(s) for s in a.shortest_path(b)])
+                row.append(wn.similarity.wup(a, b))
+            except wn.Error as exc:
+                row.append('Error')
+            rec('x-pair', row)
     for a in sss:
         for b in sss:
             row = [a.id, b.id]
